@@ -23,9 +23,9 @@ NTFNSIM_ASSUME = [
     "a clean batch is evidence, not proof: histories are sampled from a seeded PRNG",
 ]
 
-CHECK = dict(
+_CHECK = dict(
     bin="run_ntfnsim", build="gotest", pkg="run_ntfnsim", level="exploration",
-    quick=dict(runs=30000, wall=90), thorough=dict(runs=1500000, wall=1200),
+    quick=dict(runs=160000, wall=90), thorough=dict(runs=4000000, wall=1200),
     rule="one evaluation = one seeded history of 40-100 (thorough: up to 220) events: connect a block with a drawn subset of the "
          "transaction universe (incl. conflicting spends in competing branches), disconnect the tip (sticky, up to limit-1 deep), "
          "RegisterConf/RegisterSpend with drawn numConfs/hint/IncludeBlock/laziness, cancel, backend scans a dispatched rescan, backend "
@@ -49,7 +49,7 @@ ENGINE = {"name": "ntfnsim", "path": "/verif/sim/ntfnsim", "serves_properties": 
                             "(block-list model, reorgs, late/stale rescan answers), prompt and lazy clients, restarts, hint-write faults; "
                             "synctest bubble for deterministic detection of blocked sends"}
 
-TEXT = dict(
+_TEXT = dict(
     engine="ntfnsim", design_ref="DESIGN.md 5 C14",
     technique="deterministic simulation: seeded chain histories (connect/disconnect/reorg/restart, late rescan answers, hint-write faults) "
               "against the real TxNotifier + HeightHintCache, every notification judged against a block-list model of the active chain",
@@ -94,3 +94,6 @@ KNOWN_FINDINGS = [
     {"property": "C14", "code": "spend-not-told", "sig": "after-fault", "status": "open", "what": "spend missed after a lost hint write (see hint-frozen-pending-rescan)"},
     {"property": "C14", "code": "rescan-range-misses", "sig": "after-fault", "status": "open", "what": "rescan range misses the event after a lost hint write (see hint-frozen-pending-rescan)"},
 ]
+
+CHECK = {"C14": _CHECK}
+TEXT = {"C14": _TEXT}
